@@ -876,7 +876,7 @@ def initprime (ph : Phys) : Nat → M Int
       let vf ← get
       let primed : Bool := match vf.vd with | some d => decide (d.pcmout ≠ 0) | none => false
       if vf.ready = INITSET ∧ primed then return 0
-      let r ← fetchAndProcess ph true false (fpFuel ph)
+      let r ← fetchAndProcess ph true true (fpFuel ph)
       if r < 0 ∧ r ≠ OV_HOLE then return r
       initprime ph f
 
@@ -900,10 +900,12 @@ def getlap (ph : Phys) (lapsize : Int) : Nat → Int → M Int
             if r = OV_EOF then return c else getlap ph lapsize f c
 
 /-- `vorbis_synthesis_lapout(&vf->vd,..)` on the handle: a no-op when the buffer is already arranged -/
-def doLapout : M Unit := modify fun vf =>
+def lapoutVF (vf : VF) : VF :=
   if vf.lapped then vf
   else { vf with vd := vf.vd.map (fun d => (lapout (sizesOf vf) vf.hs d).1),
                  lapped := (match vf.vd with | some d => decide (d.ret ≥ 0) | none => false) }
+
+def doLapout : M Unit := modify lapoutVF
 
 def getlapFull (ph : Phys) (lapsize : Int) : M Unit := do
   let c ← getlap ph lapsize (ph.work + lapsize.toNat + 4) 0
